@@ -22,6 +22,7 @@ pub struct Stats {
     pub states: HashSet<u64>,
     pub outcomes: HashSet<u64>,
     pub nontrivial: u64,
+    pub per_cfg: Vec<u64>,
 }
 
 impl Stats {
@@ -36,6 +37,12 @@ impl Stats {
         self.states.extend(o.states);
         self.outcomes.extend(o.outcomes);
         self.nontrivial += o.nontrivial;
+        if self.per_cfg.len() < o.per_cfg.len() {
+            self.per_cfg.resize(o.per_cfg.len(), 0);
+        }
+        for (i, n) in o.per_cfg.iter().enumerate() {
+            self.per_cfg[i] += n;
+        }
     }
 }
 
@@ -121,6 +128,10 @@ impl<'a> Worker<'a> {
             return None;
         }
         self.stats.executions += 1;
+        if self.stats.per_cfg.len() <= ci {
+            self.stats.per_cfg.resize(ci + 1, 0);
+        }
+        self.stats.per_cfg[ci] += 1;
         self.stats.ops_applied += res.ops_applied;
         self.stats.epilogue_steps += res.epilogue_steps;
         self.stats.choice_points += res.choices.len() as u64;
